@@ -230,6 +230,10 @@ func runC10(c *Ctx) error {
 		if _, bad := ms.checkReach(label); bad > 0 {
 			continue // C09's business; no converged mesh to test on
 		}
+		// somebody opens the dashboard on every router: the routing table is printed
+		for _, nd := range ms.nodes {
+			_ = nd.ro.Table().Format()
+		}
 		pairs := c.Pick(6, 30)
 		for k := 0; k < pairs; k++ {
 			ai, bi := c.Rng.IntN(sp.n), c.Rng.IntN(sp.n)
